@@ -117,16 +117,17 @@ struct ProcState {
     bool inChild, synthetic; bool active;      // active: fork()/waitpid() calls belong to the simulated run (the library's own platform functions run for real, libc's are wrapped at link time)
     int test; Vec<Op> script; size_t pos; int64_t eintrLeft; int nextFake; int waitCalls;
     Vec<int> livePids;
-    int pipeFd[2]; size_t childFlushPos;
+    int pipeFd[2]; size_t childFlushPos; size_t parentFlushPos;
 };
 static ProcState PS;
 extern "C" pid_t __real_fork(void); extern "C" pid_t __real_waitpid(pid_t, int*, int);
 static void childFlushHook() {      // in a forked child: console bytes reach the outside world only when they are flushed
-    if (!PS.inChild || PS.pipeFd[1] < 0) return;
     const Str& c = simIO().console;
+    if (!PS.inChild) { if (PS.pipeFd[1] >= 0 && RS.o) { if (PS.parentFlushPos > c.size()) PS.parentFlushPos = 0; RS.o->terminal.append(c.data() + PS.parentFlushPos, c.size() - PS.parentFlushPos); PS.parentFlushPos = c.size(); } return; }
+    if (PS.pipeFd[1] < 0) return;
     while (PS.childFlushPos < c.size()) { ssize_t w = write(PS.pipeFd[1], c.data() + PS.childFlushPos, c.size() - PS.childFlushPos); if (w <= 0) break; PS.childFlushPos += (size_t)w; }
 }
-static void drainChildPipe(Str& into) { if (PS.pipeFd[0] < 0) return; char buf[4096]; ssize_t n; while ((n = read(PS.pipeFd[0], buf, sizeof buf)) > 0) into.append(buf, (size_t)n); }
+static void drainChildPipe(Obs& o) { if (PS.pipeFd[0] < 0) return; char buf[4096]; ssize_t n; while ((n = read(PS.pipeFd[0], buf, sizeof buf)) > 0) { o.childConsole.append(buf, (size_t)n); o.terminal.append(buf, (size_t)n); } }
 static void procLog(int what, int64_t v) { RS.o->procLog.push_back(PS.test); RS.o->procLog.push_back(what); RS.o->procLog.push_back(v); }
 static int simFork() {
     PS.test = RS.currentTest; PS.script.clear(); PS.pos = 0; PS.eintrLeft = -1; PS.waitCalls = 0;
@@ -136,7 +137,7 @@ static int simFork() {
     if (PS.synthetic) return 1000000 + PS.nextFake++;
     fflush(0);
     int pid = (int)__real_fork();
-    if (pid == 0) { PS.inChild = true; PS.childFlushPos = simIO().console.size(); return 0; }
+    if (pid == 0) { PS.inChild = true; PS.childFlushPos = PS.parentFlushPos <= simIO().console.size() ? PS.parentFlushPos : 0; return 0; }      // the child inherits the unflushed part of the parent's output buffer
     if (pid > 0) PS.livePids.push_back(pid);
     return pid;
 }
@@ -161,7 +162,7 @@ static int simWaitPid(int pid, int* status, int options) {
     }
     if (PS.synthetic) { procLog(4, PS.waitCalls); *status = 0; return pid; }     // the code under test keeps waiting although the child is gone: reported as a hang
     int r = (int)__real_waitpid(pid, status, options);
-    drainChildPipe(RS.o->childConsole);
+    drainChildPipe(*RS.o);
     if (r == pid && (WIFEXITED(*status) || WIFSIGNALED(*status))) { for (size_t i = 0; i < PS.livePids.size(); i++) if (PS.livePids[i] == pid) { PS.livePids.erase(PS.livePids.begin() + (long)i); break; } fired(WIFSIGNALED(*status) ? "real_child_killed_by_signal" : "real_child_exited"); }
     else if (r == pid && WIFSTOPPED(*status)) fired("real_child_stopped");
     return r;
@@ -537,6 +538,7 @@ void executeRun(const Desc& d, Obs& o) {
     PS.pipeFd[0] = PS.pipeFd[1] = -1;
     if (d.pi("separate") && !d.pi("synthetic")) { if (pipe(PS.pipeFd) == 0) { fcntl(PS.pipeFd[0], F_SETFL, O_NONBLOCK); } else PS.pipeFd[0] = PS.pipeFd[1] = -1; }
     simIO().flushHook = childFlushHook;
+    PS.parentFlushPos = 0;
     PS.inChild = false; PS.synthetic = d.pi("synthetic") != 0; PS.nextFake = 0; PS.livePids.clear(); PS.script.clear(); PS.pos = 0; PS.eintrLeft = -1; PS.test = -1;
 
     det->increaseAllocationStage();        // everything the run leaves behind is released again after the run
@@ -632,6 +634,7 @@ void executeRun(const Desc& d, Obs& o) {
             { SimRunner pro((int)pav.size(), pav.data(), &reg); (void)pro.runAllTestsMain(); }
             RS.o = &o; RS.primaryOutput = 0; RS.currentTest = -1; RS.testsStartedSoFar = 0;
             simIO().reset(); simClock().reset((uint64_t)d.pi("clock_start"), d.pi("clock_step", 1));
+            PS.parentFlushPos = 0;
             simRand().calls = 0; simRand().srands = 0;
         }
         SimRunner runner((int)avp.size(), avp.data(), &reg);
@@ -646,7 +649,8 @@ void executeRun(const Desc& d, Obs& o) {
     PS.active = false;
     for (size_t i = 0; i < PS.livePids.size(); i++) { __real_kill(PS.livePids[i], SIGKILL); __real_kill(PS.livePids[i], SIGCONT); int st; while (__real_waitpid(PS.livePids[i], &st, 0) < 0 && errno == EINTR) {} }
     PS.livePids.clear();
-    drainChildPipe(o.childConsole);
+    drainChildPipe(o);
+    if (PS.pipeFd[0] >= 0) { const Str& c = simIO().console; if (PS.parentFlushPos <= c.size()) o.terminal.append(c.data() + PS.parentFlushPos, c.size() - PS.parentFlushPos); }      // the process ends: the rest of the buffer goes out
     if (PS.pipeFd[0] >= 0) { close(PS.pipeFd[0]); close(PS.pipeFd[1]); PS.pipeFd[0] = PS.pipeFd[1] = -1; }
     o.depthAtEnd = J.depth(); o.maxDepth = J.maxDepth;
     o.ctxOkAtEnd = UtestShell::getCurrent() == RS.outsideShell;
